@@ -235,10 +235,11 @@ def theorems_of(mod):
     return names
 
 
-def audit(prop):
-    """#print axioms for every theorem of Props/<prop>.lean; returns (ok, {thm: [axioms]}, msg)"""
+def audit(prop, extra=()):
+    """#print axioms for every theorem of Props/<prop>.lean (plus `extra`, fully qualified names of
+    theorems in modules that Props/<prop>.lean imports); returns (ok, {thm: [axioms]}, msg)"""
     mod = "QlibcModel.Props." + prop
-    thms = theorems_of(mod)
+    thms = theorems_of(mod) + list(extra)
     path = os.path.join(LEAN, "Audit", prop + ".lean")
     text = "import %s\n" % mod + "".join("#print axioms %s\n" % t for t in thms)
     if not os.path.exists(path) or open(path).read() != text:
@@ -351,6 +352,8 @@ class Check:
     wraps = ()
     lib = "libq.a"         # "libqw.a": allocator calls of the library go through harness/allocwrap.h
     lean_targets = ()      # extra lake targets besides Props.<prop>
+    also_audit = ()        # obligations proved in other Props modules (fully qualified theorem names)
+    multi = False          # streams bring their own harness/module (no default harness)
     trusted_base = ["Lean 4.33 kernel", "axioms propext / Classical.choice / Quot.sound only",
                     "hand-written model tied by the correspondence harness (differential, sampled)"]
     assumptions = []
@@ -424,9 +427,9 @@ class Check:
         proof["built"], proof["build_s"] = ok, round(dt, 1)
         if not ok:
             proof["errors"] += errs[:10] or [out[-1500:]]
-        thms, axioms = theorems_of("QlibcModel.Props." + prop), {}
+        thms, axioms = theorems_of("QlibcModel.Props." + prop) + list(self.also_audit), {}
         if ok:
-            aok, axioms, bad = audit(prop)
+            aok, axioms, bad = audit(prop, self.also_audit)
             hits = forbidden_tokens("QlibcModel.Props." + prop)
             proof["audited"] = aok and not hits
             proof["errors"] += bad + ["forbidden token: " + h for h in hits]
